@@ -296,8 +296,15 @@ def run_case(ctx, label, make_doc, ops, case, original_section=None):
         ctx.fail(f"C17/preview-flag/{tag}/has_preview-false", "the reopened document says it has no merged image although save() wrote one",
                  case, False, True)
     # ---------------- oracle: the merged image equals the composite of the SAVED layers
+    def walk(g):
+        # own traversal: descendants() yields clipped layers twice (C10)
+        for l in g:
+            yield l
+            if l.is_group():
+                yield from walk(l)
+
     def shape(d):
-        return [(l.kind, l.name, tuple(l.bbox), l.visible, str(l.blend_mode), l.opacity) for l in d.descendants()]
+        return [(l.kind, l.name, tuple(l.bbox), l.visible, str(l.blend_mode), l.opacity) for l in walk(d)]
     s1, s2 = shape(psd), shape(p2)
     if [x[:2] for x in s1] != [x[:2] for x in s2]:
         kind = "file-with-Lr16-Lr32" if depth in (16, 32) and case.get("fixture") else "other"
@@ -318,6 +325,21 @@ def run_case(ctx, label, make_doc, ops, case, original_section=None):
         ctx.skipped.append(f"{label}: composite of the reopened document raises {c2[1]}")
         return result
     color2, _s2, alpha2 = [np.asarray(x, dtype=np.float64) for x in c2[1]]
+    if cap.calls:
+        c1, _x, a1 = cap.calls[-1]
+        f1 = c1.astype(np.float64) * a1 + (1.0 - a1)
+        f2 = color2 * alpha2 + (1.0 - alpha2)
+        if c1.shape == color2.shape and (float(np.abs(f1 - f2).max()) > 1e-4 or float(np.abs(a1 - alpha2).max()) > 1e-4):
+            # same layers, same attributes, yet the document in memory renders differently from the reopened file:
+            # derived render state of the edited tree is stale (the merged image is the in-memory rendering)
+            clip = any(getattr(l, "clipping_layer", False) or getattr(l, "_clip_layers", None)
+                       for d in (psd, p2) for l in walk(d))
+            feat = "clipping" if clip else "other"
+            ctx.fail(f"C17/merged-vs-composite/stale-render-state/{feat}",
+                     "the edited document in memory composites differently from the same layers after reopening, so the "
+                     "merged image (rendered in memory) does not match the saved layers", case,
+                     float(np.abs(f1 - f2).max()), "same rendering")
+            return "stale render state"
     n = NCOLOR[cm]
     flat_comp = color2 * alpha2 + (1.0 - alpha2)
     transparent = nch > n and bool(has_transparency(p2))
@@ -352,6 +374,9 @@ def run_case(ctx, label, make_doc, ops, case, original_section=None):
         if cm == "CMYK":
             b = 1.0 - b
         ref = flat_comp
+        if im[1].mode == "RGBA":
+            # an 8-bit image cannot hold un-matted values outside [0, 1]
+            ref = np.clip(color2, 0.0, 1.0) * alpha2 + (1.0 - alpha2)
         if im[1].mode in ("LA", "RGBA"):
             fl = b[:, :, :n] * b[:, :, n:n + 1] + (1.0 - b[:, :, n:n + 1])
         else:
